@@ -14,7 +14,7 @@ META = dict(
                 'Oracle from the statement at list level: with ignore/router the main output equals the output of the same real pipeline on the items with the failing ones removed (other keys and later items unaffected); '
                 'with error.map the failing item is replaced in place by the mapped value; the router delivers the exceptions in source order to the dead-letter observable, which completes exactly when the stream completes; '
                 'with no handler the final subscriber receives the outputs produced before the first failing item, then on_error with that exception, and nothing after - also when the failing operator sits before a group_by, and when the only handler sits after the group_by (the error is unhandled where the group stream is demultiplexed).',
-    bounds=dict(quick='N <= 3 items (N <= 4 on the root key), <= 2 groups, |v| <= 2^40', thorough='N <= 5 (root), N <= 4 with 2 groups'),
+    bounds=dict(quick='N <= 3 items (N <= 4 on the root key), <= 2 groups, |v| <= 2^40; long-but-narrow: 9 / 17 / 34 keys live at once, the failing function a map before a scan or the scan accumulator itself (int and tuple seeds)', thorough='N <= 5 (root), N <= 4 with 2 groups'),
     outside='errors raised by other operators; handlers not placed directly after the raising operator; N above the bound',
     assumptions=['the same real pipeline on the items without the failing ones is the specification of "as if the item were absent" (differential oracle)'],
     stubs=[],
